@@ -570,6 +570,41 @@ def gen_clean_scenario(rng: random.Random, **kw) -> dict:
     return sc
 
 
+def gen_fanin_scenario(rng: random.Random) -> dict:
+    """A consumer triggered by two or three independent sources of different speed (a fast one and a slow, sparsely
+    producing one that holds the consumer's progress back), optionally with future-dated outputs and a relay; mostly
+    without lazy stepping, so that producers run ahead: steps inserted earlier than the one a simulator is waiting
+    for, several triggers for one time, wake-ups while the progress is still behind."""
+    k = rng.choice([2, 2, 3])
+    sims = []
+    for i in range(k):
+        typ = rng.choice(["time-based", "hybrid", "hybrid", "event-based"])
+        sims.append({"type": typ, "group": [], "init_ev": rng.choice([0, 0, 1]) if typ == "event-based" else None})
+    cons = {"type": rng.choice(["event-based", "event-based", "hybrid"]), "group": [], "init_ev": None}
+    if cons["type"] == "event-based" and rng.random() < 0.3:
+        cons["init_ev"] = rng.choice([0, 2, 3])
+    sims.append(cons)
+    c = k
+    connects = []
+    def conn(a, b, ts):
+        return {"src": a, "seid": rng.randrange(2), "dst": b, "deid": rng.randrange(2), "sattr": rng.choice([2, 3]),
+                "dattr": 1, "ts": ts, "weak": False, "init": False, "async": False}
+    for i in range(k):
+        connects.append(conn(i, c, rng.choice([0, 0, 0, 1])))
+    if rng.random() < 0.4:
+        # the sources also trigger each other (a chain among them)
+        connects.append(conn(0, 1, rng.choice([0, 1])))
+        if sims[1]["type"] == "time-based":
+            connects[-1]["dattr"] = 0
+    if rng.random() < 0.3:
+        sims.append({"type": "event-based", "group": [], "init_ev": None})      # a relay behind the consumer
+        connects.append(conn(c, c + 1, 0))
+    sc = {"sims": sims, "connects": connects, "until": rng.randint(4, 8), "max_loop": 100,
+          "lazy": rng.random() < 0.35, "cache": rng.random() < 0.5, "beh_seed": rng.randrange(10 ** 9),
+          "sparse_persistent": False, "future_outputs": rng.random() < 0.4}
+    return normalise(sc)
+
+
 def gen_loop_scenario(rng: random.Random) -> dict:
     """A same-time loop of 2-3 simulators inside a group of depth 2-4 (one weak connection), kept alive for
     loop_len sub-steps, with loop_len around max_loop_iterations; optionally an outer loop around it."""
